@@ -18,6 +18,7 @@ import json
 import math
 import bisect
 import contextlib
+import re
 
 import common
 common.ensure_repo_on_path()
@@ -26,6 +27,7 @@ import objectives
 from impl import LoggedProblem
 from streams import gen_box
 
+_COLLAPSE = re.compile(r"x is outside of interval (\S+) (\S+) (\S+)")
 MAX_VIOLATIONS = 25          # recorded per run (the total count is kept in stats)
 
 
@@ -108,6 +110,15 @@ def scale_spec(spec, s):
     raise ValueError(k)
 
 
+def collapse_prone_case(r):
+    """N = 1, a cone (exactly linear on both sides of its minimum) and a small r: the search converges geometrically and,
+    if iterations are issued past the accuracy stop, reaches the float collapse within ~40-80 iterations"""
+    spec = {"kind": "cone", "p": [round(r.uniform(0.05, 0.95), 3)], "c": round(r.uniform(0.5, 4), 2)}
+    case = gen_case(r, n=1, spec=spec, lim=400, eps=r.choice([1e-4, 1e-3, 0.01]), rr=round(r.uniform(1.1, 1.6), 2), m=10)
+    case["batches"] = [r.choice([1, 1, 2, 5, 9]) for _ in range(120)]
+    return case
+
+
 def case_key(case):
     return json.dumps(case, sort_keys=True, default=str)
 
@@ -142,15 +153,70 @@ class Run:
         for l in listeners:
             self.solver.AddListener(l)
         self.out = io.StringIO()
+        self.collapsed = None      # info on the float collapse that ended the run
+        self.bad_marker = False    # 'Exception was thrown' printed for any other reason
 
-    # every call into the solver goes through one of these (stdout captured)
+    # every call into the solver goes through one of these (stdout captured).
+    #
+    # Float collapse: once an interval has shrunk to a few ulps, the new point computed by
+    # CalculateNextPointCoordinate rounds onto an end point and the code raises
+    # Exception('... x is outside of interval') (unreachable in exact arithmetic).  That is the legitimate end of
+    # the run: `collapsed` is set, no further iteration is issued (iterate/solve become no-ops) and every
+    # clause is still tested on the state reached.  It is legitimate only if the interval really was tiny:
+    # x_r - x_l <= 1e-12*max(1,|x_r|); otherwise it is reported (`trouble`).
+    def _scan(self):
+        txt = self.out.getvalue()
+        return len(_COLLAPSE.findall(txt)), txt.count("Exception was thrown")
+
+    def collapse_info(self):
+        ms = _COLLAPSE.findall(self.out.getvalue())
+        if not ms:
+            return None
+        try:
+            x, xl, xr = (float(v) for v in ms[-1])
+        except ValueError:
+            return {"unparsed": ms[-1], "tiny": False}
+        return {"x": x, "xl": xl, "xr": xr, "width": xr - xl, "tiny": (xr - xl) <= 1e-12 * max(1.0, abs(xr))}
+
     def solve(self):
+        """Solve(); on a run that already ended by float collapse only GetResults()"""
+        if self.collapsed:
+            return self.solver.GetResults()
+        c0, m0 = self._scan()
         with contextlib.redirect_stdout(self.out):
-            return self.solver.Solve()
+            sol = self.solver.Solve()
+        c1, m1 = self._scan()
+        if m1 > m0:
+            col = self.collapse_info() if c1 > c0 else None
+            if col and col["tiny"]:
+                self.collapsed = col
+            else:
+                self.bad_marker = True
+        return sol
 
     def iterate(self, k=1):
-        with contextlib.redirect_stdout(self.out):
-            self.solver.DoGlobalIteration(k)
+        """DoGlobalIteration(k); returns False (and does nothing more) once the run ended by float collapse"""
+        if self.collapsed:
+            return False
+        c0, _ = self._scan()
+        try:
+            with contextlib.redirect_stdout(self.out):
+                self.solver.DoGlobalIteration(k)
+        except Exception as e:
+            c1, _ = self._scan()
+            col = self.collapse_info() if c1 > c0 else None
+            if "x is outside of interval" in str(e) and col and col["tiny"]:
+                self.collapsed = col
+                return False
+            raise
+        return True
+
+    def trouble(self, err=None):
+        """None, or what went wrong inside the solver other than a legitimate float collapse"""
+        if err or self.bad_marker or self.runaway:
+            return {"raised": err, "unexpected_exception_marker": self.bad_marker, "runaway": self.runaway,
+                    "outside_of_interval": self.collapse_info()}
+        return None
 
     def stopped(self):
         return self.solver.method.CheckStopCondition()
